@@ -19,7 +19,7 @@ RULE = ("Hypothesis: one object with 2-12 keys drawn from the full key pools plu
         "distinct = canonical JSON of (keys, nested flags, options).")
 ASSUMPTIONS = ["folded-equal keys, empty labels, leading underscores and framework-reserved names are excluded by construction "
                "(listed known findings, counted); load failures are C03's business (skipped, counted)"]
-POOLS = gen.ALL_KEY_POOLS + [gen.DIGIT_FIRST]
+POOLS = gen.ALL_KEY_POOLS + [gen.DIGIT_FIRST, gen.CASELESS_KEYS]
 EXCLUDED_BY_FINDING = {"pool-keys:" + k: v for k, v in gen.excluded_counts(POOLS, allow_digit_first=True).items()}
 FLOORS = {"needs-renaming": 0.3}
 
@@ -36,6 +36,8 @@ def cases(draw, tier="quick"):
             "nested": draw(st.booleans()), "pic": draw(st.booleans())}
     if not opts["unicode"] and any(gen.nfkc_unstable(k) for k in keys):
         opts["unicode"] = True      # finding nfkc-unstable-key-without-transliteration, excluded by construction
+    if any(k in gen.CASELESS_KEYS for k in keys):
+        opts["unicode"] = True      # caseless scripts are in the domain through their ASCII transliteration only
     # keys missing from a second sample become optional fields (None / factory defaults)
     optional = [draw(st.integers(0, 3)) == 0 for _ in keys]
     return {"keys": keys, "kinds": kinds, "optional": optional, "opts": opts}
@@ -76,7 +78,7 @@ def valid(case):
             digit = gen.label_of(k, True)[:1].isdigit() or gen.label_of(k, False)[:1].isdigit()
             if kind not in ("int", "str", "null", "list", "obj", "objlist", "intstr", "floatstr", "boolstr") or (digit and kind in ("obj", "objlist")):
                 return False
-        if not case["opts"].get("unicode", True) and any(gen.nfkc_unstable(k) for k in keys):
+        if not case["opts"].get("unicode", True) and any(gen.nfkc_unstable(k) or k in gen.CASELESS_KEYS for k in keys):
             return False
         obj = build_object(case)
         for o in c01._objects(obj):
